@@ -275,6 +275,22 @@ def gen_isolate(rnd, dyn=None):
                 specials=ps, pspecial=0.15, oracles=['clock', 'member', 'loci', 'diagram'])
 
 
+def gen_fixrec0(rnd, dyn=None):
+    """fixed-recovery models at the edge of their parameter range: infectious period 0 (recovery due at the very time of infection, at
+    time 0 for the seeds), no transmission, everybody or nobody seeded"""
+    cls = rnd.choice(['SIR_FixedRecovery', 'SIS_FixedRecovery'])
+    base = gen_shipped(rnd, classes=[cls], dyn=dyn, oracles=('clock', 'member', 'loci', 'diagram'), net=rand_net(rnd, 2, 6))
+    p = base['procs'][0]
+    for k in list(p['params']):
+        if k.endswith('tInfected'): p['params'][k] = rnd.choice([0.0, 0.0, 0.5, 1.0])
+        elif k.endswith('pInfect'): p['params'][k] = rnd.choice([0.0, 0.0, 0.5, 1.0])
+        elif k.endswith('pInfected'): p['params'][k] = rnd.choice([0.0, 0.5, 1.0])
+    base['maxT'] = rnd.choice([2.0, 3.0])
+    if rnd.random() < 0.3:
+        base['procs'].append(dict(cls='Monitor', name=None, params={Monitor.DELTA: 1.0})); base['seq'] = 'list'
+    return base
+
+
 def gen_compfix(rnd, dyn=None):
     """two named fixed-recovery epidemics over one network (they share the undecorated infection_time attribute)"""
     nodes, edges = rand_net(rnd, 3, 7, kind=rnd.choice(['er', 'complete', 'star']))
@@ -556,6 +572,11 @@ def final_diagram(d, ex, res, md, spec):
             if mine.get(c) != true: return f"{cls}: results report {mine.get(c)} nodes in {_short(q, c)}, the network has {true}"
             tot += true
         if tot != g.order(): return f"{cls}: compartment sizes sum to {tot}, the network has {g.order()} nodes"
+        if spec['dyn'] == 'sto' and md[Dynamics.TIME] < q.maximumTime() and cls in ('SIR_FixedRecovery', 'SIS_FixedRecovery', 'VarInfFixed'):
+            # the run stopped before its maximum time, so nothing was possible any more: with a fixed infectious period every infected node
+            # has a recovery scheduled, hence nobody can still be infected
+            inf = [n for n in g.nodes() if g.nodes[n].get(q.COMPARTMENT) == q.INFECTED]
+            if inf: return f"{cls}: run stopped at {md[Dynamics.TIME]} (before its maximum time {q.maximumTime()}) with node {inf[0]} still infected, its recovery never happened"
         if spec['dyn'] == 'sto' and md[Dynamics.TIME] < q.maximumTime() and not d._postedEventFinder and cls in ('SIR', 'SIS', 'SIRS', 'SIR_VariableInfection'):
             c = lambda n: g.nodes[n].get(q.COMPARTMENT)
             si = [(a, b) for (a, b) in g.edges() if {c(a), c(b)} == {q.SUSCEPTIBLE, q.INFECTED}]
